@@ -134,7 +134,14 @@ def run(ctx: Ctx) -> None:
         if not T.is_leaf(e):
             xl = extract_categorized_keys_from_tree(T.to_lark(e[1]), sanitize=True)
             xr = extract_categorized_keys_from_tree(T.to_lark(e[2]), sanitize=True)
+            before = (extract_dict(xl), extract_dict(xr))
             s = extract_dict(xl + xr)
+            s_again = extract_dict(xl + xr)  # the summands are used again: a sum must not depend on what was added before
+            if (extract_dict(xl), extract_dict(xr)) != before or canon_ties(s_again) != canon_ties(s):
+                ctx.violation("adding two extracts changes a summand / the same sum computed twice differs",
+                              {"tree": T.to_json(e), "summands_before": before, "summands_after": [extract_dict(xl), extract_dict(xr)], "sum": s, "sum_again": s_again},
+                              key=f"summand:{T.to_json(e)}")
+                continue
             if canon_ties(s) != canon_ties(x):
                 ctx.violation("extract of a composed expression is not the union of the extracts of its parts", {"tree": T.to_json(e), "sum": s, "whole": x}, key=f"union:{T.to_json(e)}")
     # through the string entry point, with and without resolution
